@@ -15,7 +15,10 @@ var Driver = core.Driver{ID: "C13", Level: "model_checking", Run: run, Replay: r
 
 const runeConsts = " RuneMax = 1114111\n HoleLo = 55296\n HoleHi = 57343\n Repl = 65533\n TU_FROM_START = TRUE\n NOTDEF_OWN = TRUE\n"
 
-var traceOpts = core.TLCOpts{Dir: "font", Module: "Trace_CMap", Cfg: "Trace_CMap.cfg", XssMB: 512, XmxMB: 2500}
+// single-worker TLC runs: many of them run side by side, so keep each JVM's helper threads few
+var smallJVM = map[string]string{"JAVA_TOOL_OPTIONS": "-XX:ParallelGCThreads=2 -XX:CICompilerCount=2"}
+
+var traceOpts = core.TLCOpts{Dir: "font", Module: "Trace_CMap", Cfg: "Trace_CMap.cfg", XssMB: 512, XmxMB: 2500, Env: smallJVM}
 
 // genJob is one run of Gen_CMap.
 type genJob struct {
@@ -264,7 +267,7 @@ func runTable(ctx *core.Ctx, v *verdicts) error {
 				return
 			}
 			cases, _, err := core.GenCases[genCase](ctx, core.TLCOpts{Dir: "font", Module: "Gen_CMap", CfgText: u.j.cfg(u.shard), Mode: "evaluate",
-				XssMB: 512, XmxMB: 3000, Timeout: ctx.Dur(6, 30), Quiet: true})
+				XssMB: 512, XmxMB: 3000, Timeout: ctx.Dur(6, 30), Quiet: true, Env: map[string]string{"JAVA_TOOL_OPTIONS": smallJVM["JAVA_TOOL_OPTIONS"]}})
 			if err != nil {
 				fail(err)
 				return
